@@ -46,9 +46,11 @@ def node_path(sc, node):
 
 
 def content(kind, ident):
+    # every document also has an expectation that only passes under the glob dialect of ITS format (Cram: `\\*` is a literal
+    # star; Markdown: the backslash is an ordinary character and `*` a wildcard): the rule registry is chosen per document
     if kind == "cram":
-        return f"Test {ident}\n\n  $ echo {ident} >> \"$RUN_LOG\"\n"
-    return f"# Test {ident}\n\n```scrut\n$ echo {ident} >> \"$RUN_LOG\"\n```\n"
+        return f"Test {ident}\n\n  $ echo {ident} >> \"$RUN_LOG\"; echo 'foo*bar'\n  foo\\*bar (glob)\n"
+    return f"# Test {ident}\n\n```scrut\n$ echo {ident} >> \"$RUN_LOG\"; echo 'foo\\Xbar'\nfoo\\*bar (glob)\n```\n"
 
 
 def materialise(sc, root):
